@@ -35,7 +35,10 @@ func SelRecv[T any](sel Selected, ch chan T) (T, bool) {
 	if !sel.ok || !sel.value.IsValid() {
 		return zero, false
 	}
-	return sel.value.Interface().(T), true
+	if v, ok := sel.value.Interface().(T); ok {
+		return v, true
+	}
+	return zero, true // a nil value of an interface element type
 }
 
 // Select is what the instrumenter substitutes for a select statement. Under
@@ -70,15 +73,34 @@ func Select(site string, hasDefault bool, cases []SelCase) Selected {
 	states := make([]*chanState, len(cases))
 	for i, c := range cases {
 		states[i] = c.st(s)
-		if states[i].key != 0 && states[i].capacity == 0 {
-			panic(MachineryError{"select on an unbuffered channel is not modelled"})
+		if states[i].key != 0 && states[i].capacity == 0 && c.send && states[i].selRecvers > 0 {
+			// two select statements that could only meet each other on an unbuffered channel
+			panic(MachineryError{"a rendezvous between two select statements is not modelled"})
 		}
+	}
+	untaken := func(st *chanState) *chanOffer {
+		for _, o := range st.offers {
+			if !o.taken {
+				return o
+			}
+		}
+		return nil
 	}
 	ready := func() []int {
 		var r []int
 		for i, c := range cases {
 			st := states[i]
 			if st.key == 0 {
+				continue
+			}
+			if st.capacity == 0 {
+				// unbuffered: a send clause meets a parked receiver, a receive clause meets a parked sender's offer
+				if c.send && (st.closed || st.waiting > len(st.handoff)) {
+					r = append(r, i)
+				}
+				if !c.send && (st.closed || untaken(st) != nil) {
+					r = append(r, i)
+				}
 				continue
 			}
 			if c.send && (st.closed || st.length() < st.capacity) {
@@ -91,8 +113,18 @@ func Select(site string, hasDefault bool, cases []SelCase) Selected {
 		return r
 	}
 	t.selReady = ready
+	for i, c := range cases {
+		if !c.send && states[i].key != 0 && states[i].capacity == 0 {
+			states[i].selRecvers++
+		}
+	}
 	t.pend = pending{kind: opSelect, obj: selectObj, site: site, enabled: func() bool { return hasDefault || len(ready()) > 0 }}
 	s.point(t)
+	for i, c := range cases {
+		if !c.send && states[i].key != 0 && states[i].capacity == 0 {
+			states[i].selRecvers--
+		}
+	}
 	t.selReady = nil
 	r := ready()
 	if len(r) == 0 {
@@ -105,6 +137,31 @@ func Select(site string, hasDefault bool, cases []SelCase) Selected {
 	t.selChoice = -1
 	c, st := cases[i], states[i]
 	s.trace("select clause %d %s", i, site)
+	if st.capacity == 0 {
+		if c.send {
+			raceSend(st, site)
+			if st.closed {
+				panic(plainRuntimeError("send on closed channel"))
+			}
+			st.handoff = append(st.handoff, c.val.Interface())
+			st.handoffVC = append(st.handoffVC, t.vc)
+			t.vc[t.id]++
+			return Selected{Index: i}
+		}
+		if off := untaken(st); off != nil {
+			off.taken = true
+			joinVC(&t.vc, &off.vc)
+			off.rvc = t.vc
+			t.vc[t.id]++
+			val := reflect.Zero(c.ch.Type().Elem())
+			if off.v != nil {
+				val = reflect.ValueOf(off.v)
+			}
+			return Selected{Index: i, value: val, ok: true}
+		}
+		joinVC(&t.vc, &st.closeVC)
+		return Selected{Index: i, value: reflect.Zero(c.ch.Type().Elem()), ok: false}
+	}
 	if c.send {
 		raceSend(st, site)
 		if !st.closed {
